@@ -332,6 +332,19 @@ CLAIMED["C40"] = dict(
         "receiving handler's parsing), the completeness direction of the location list (every non-self location is included), concurrent writers. " + TRUST,
    design="DESIGN.md §4 C40")
 
+CLAIMED["C28"] = dict(
+   text="Proof-level kernel of the multipart clause 'a completed multipart object equals the concatenation of its parts in ascending part-number order, for any part "
+        "numbers 1..10000': partNumberOf reads the part number back from a stored part's name (0 for anything else); lemma: the name a part is uploaded under "
+        "(fmt.Sprintf(\"%04d.part\", k)) reads back as k for every k in 1..10000 (theory of strings, including the five-digit name of part 10000); the comparison "
+        "completeMultipartUpload sorts the listed parts by is 'part number less than'; completeMultipartUpload sorts before it concatenates, appends every chunk of "
+        "every part at the running offset, the running offset is the end of the chunk appended last and starts at 0 (loop invariants, guard at every append), and "
+        "hands exactly that list to the object's entry.",
+   note="sort.SliceStable (library) is assumed to sort by the comparison it is given; the filer listing, mkFile and the upload directory are opaque; part numbers are "
+        "compared for names without a sign character. Not decided: single PUT, streaming-signed PUT, copy, range reads through S3 (C32 decides the volume server's "
+        "range answers), batch delete, the order of the chunks inside one part (taken as listed). One defect repaired (part 10000 was concatenated before part 1001). "
+        + TRUST,
+   design="DESIGN.md §4 C28")
+
 NA = {
  "C03":"crash-point property over byte-level truncation of two persistent files; no per-function contract within reach decides it (DESIGN §4 C03)",
  "C10":"needs inductive tree predicates and cardinality reasoning over interface-typed nodes in pointer maps with randomised picking (DESIGN §4 C10)",
@@ -339,7 +352,6 @@ NA = {
  "C15":"planners over string-keyed map snapshots; needs multiset/cardinality reasoning over maps that the generator cannot do unbounded",
  "C16":"same reason as C15: planners over map snapshots and shard bitmaps across many servers",
  "C27":"recursive listing driven by gRPC stream callbacks with mutable cursor state across recursion over an external tree",
- "C28":"HTTP handlers, filer listing order and %04d formatting vs lexicographic order; string<->integer goals time out on all installed solvers",
  "C29":"containment depends on path normalisation in gorilla/mux, net/url, filepath and the filer; textual prefix contracts would be vacuous",
  "C38":"a schedule (linearizability) property; the generator is sequential",
  "C39":"unbounded tree of pointer maps with recursive deletion; needs inductive heap predicates",
